@@ -70,7 +70,7 @@ def mutate(raw: bytes, muts):
 
 
 def parse(text, multiple, as_bytes):
-    data = text.encode("utf-8") if as_bytes else text
+    data = text.encode("utf-8", "surrogateescape") if as_bytes else text
     return Calendar.from_ical(data, multiple=multiple)
 
 
@@ -80,7 +80,16 @@ def input_text(case):
         return "".join(parts)
     if case["gen"] == "fixture":
         return mutate(fixtures()[case["fixture"]], case["muts"])
+    if "b64" in case:
+        import base64
+        return base64.b64decode(case["b64"]).decode("utf-8", "surrogateescape")
     return case["raw"]
+
+
+def raw_case(data: bytes):
+    """case for the atheris driver"""
+    import base64
+    return {"gen": "raw", "provider": "zoneinfo" if len(data) % 2 else "pytz", "b64": base64.b64encode(data).decode("ascii"), "multiple": True, "as_bytes": True}
 
 
 def judge(case):
@@ -404,7 +413,12 @@ def streams(tier):
         Stream("fixtures-unmutated", "fixed", 0, 8, _plain_fixtures, True, False, timeout_s=60),
         Stream("grammar-trees", "hyp", n, 16, tree_cases, timeout_s=60),
         Stream("mutated-fixtures", "hyp", n // 2, 16, fixture_cases, timeout_s=60),
-    ]
+    ] + ([Stream("atheris-bytes", "custom", 0, 8, _atheris, timeout_s=60)] if tier == "thorough" else [])
+
+
+def _atheris(ctx):
+    from vlib import fuzz
+    fuzz.campaign("checks.c01_parse_roundtrip", ctx, 150, use_corpus=ctx["shard"] % 4 != 3)
 
 
 LEVEL_TEXT = ("Grammar-generated well-formed texts (ground truth = the abstract tree), every repository fixture, and mutated fixtures are "
